@@ -47,6 +47,16 @@ CLAIMS = {
         "Set typing is annotation- and constructor-driven (pyanalyze's sources are fully annotated); values that are "
         "sets only behind an un-annotated external call are not seen. Exceptions are listed with reasons in sa/rules/c10.py.",
     ),
+    "C11": (
+        "Decides, on show_error and its collaborators: (R11.1) a test of the enabled state dominates every emission "
+        "effect and does NOT dominate ignore accounting; (R11.2) each ignore-caused return marks exactly the matched "
+        "line as used, file-level scan stops at the first code line, unused = comment present and index unused; "
+        "(R11.3) neighbour-line indices are in range; (R11.4) all_failures has a single writer; (R11.5) reads of the "
+        "enabled state outside show_error are classified; (R11.6) code-specific forms compare the code name. The "
+        "relation D(P+comment) = D(P) - targeted over all placements is not decided; option precedence is C18.",
+        "CFG dominance + def-use on the diagnostic filter",
+        "CFG is statement-level with exception edges only inside try bodies; string shapes of the comment tests are matched on the normalised source.",
+    ),
     "C12": (
         "Decides: (R12.1) no element of the dispatched domain reaches a failing default (assert False/assert_never) "
         "in the classified dispatch chains, and dispatchers do not fall off their end; (R12.2) NodeVisitors whose "
